@@ -167,6 +167,36 @@ func exec(env *sess.Env, st store.Store, rq *Request, log *kit.Log) (o ReqOutcom
 				return fail(err)
 			}
 		}
+	case "action-json", "action-xml":
+		sel, err := root.Find(rq.Path)
+		if err != nil {
+			return fail(err)
+		}
+		if sel == nil {
+			o.Kind = "ok"
+			return o
+		}
+		var in node.Node
+		if rq.Doc != "" {
+			rd := &simio.Reader{Data: []byte(rq.Doc), Chunks: rq.Chunks, FailAt: -1, Log: log}
+			if rq.Kind == "action-json" {
+				in, err = nodeutil.ReadJSONIO(rd)
+			} else {
+				in, err = nodeutil.ReadXMLDoc(rd)
+			}
+			if err != nil {
+				return fail(err)
+			}
+		}
+		out, err := sel.Action(in)
+		if err != nil {
+			return fail(err)
+		}
+		if out != nil {
+			if _, err := nodeutil.WriteJSON(out); err != nil {
+				return fail(err)
+			}
+		}
 	case "setvalue":
 		sel, err := root.Find(rq.Path)
 		if err != nil {
